@@ -180,6 +180,7 @@ func runC17(r *ev.Run) {
 			pairs = append(pairs, prev)
 		}
 		pairs = append(pairs, nearMisses(cg, &k)...)
+		pairs = append(pairs, aliasedVariants(&k)...)
 		for pi, o := range pairs {
 			eq := x509.EqualPublicKeys(&k, o)
 			eq2 := x509.EqualPublicKeys(o, &k)
@@ -434,4 +435,25 @@ func sign(x int) int {
 		return 1
 	}
 	return 0
+}
+
+// aliasedVariants: keys whose body shares memory with k's (a prefix, an extension into spare capacity, a window one byte in,
+// the very same slice): equality must still be decided by content and length, not by where the bytes live.
+func aliasedVariants(k *x509.PublicKey) []*x509.PublicKey {
+	var out []*x509.PublicKey
+	mk := func(d []byte) { out = append(out, &x509.PublicKey{Algorithm: k.Algorithm, Data: d}) }
+	mk(k.Data) // same slice: equal
+	if len(k.Data) > 1 {
+		mk(k.Data[:len(k.Data)-1])
+		mk(k.Data[1:])
+	}
+	// a copy with spare capacity, and its extension by one byte
+	big := make([]byte, len(k.Data), len(k.Data)+4)
+	copy(big, k.Data)
+	ext := big[:len(big)+1]
+	ext[len(ext)-1] = 0x01
+	out = append(out, &x509.PublicKey{Algorithm: k.Algorithm, Data: big})
+	// pair (big, ext) is checked through the k-vs-ext and k-vs-big pairs only if k aliases them, so compare them directly too
+	out = append(out, &x509.PublicKey{Algorithm: k.Algorithm, Data: ext})
+	return out
 }
